@@ -183,23 +183,32 @@ example : (match setM GenCfg.fixed exNode .ptr exVal [seg "M", seg "k", seg "A"]
     | .ok r => r == .struct [.slice false [.int 3] 1, .nilptr, .map false [.str (strBytes "k")] [.struct [.int 5]]]
     | _ => false) = true := by decide
 
-/-- Known finding `set-lost-update`: the model of the current tree assigns to a copy of the scalar slice
-element (`L.0`) and of the struct held by value in a map (`M.k.A`) and returns before the write-back. -/
+/-- Finding `set-lost-update` (repaired in /repo): the emitter at the pinned commit assigns to a copy of the struct
+held by value in a map (`M.k.A`) and returns before the write-back; the tree as it is stores it. -/
 theorem repo_not_correct_lost_update :
-    setAccepts exNode exVal [seg "L", seg "0" (some 0)] five
-      (setM GenCfg.repo exNode .ptr exVal [seg "L", seg "0" (some 0)] five true) = false ∧
     setAccepts exNode exVal [seg "M", seg "k", seg "A"] five
-      (setM GenCfg.repo exNode .ptr exVal [seg "M", seg "k", seg "A"] five true) = false := by
+      (setM GenCfg.original exNode .ptr exVal [seg "M", seg "k", seg "A"] five true) = false ∧
+    setAccepts exNode exVal [seg "M", seg "k", seg "A"] five
+      (setM GenCfg.repo exNode .ptr exVal [seg "M", seg "k", seg "A"] five true) = true := by
+  decide
+
+/-- Finding `set-scalar-elem-lost` (repaired in /repo): the same for an element of a slice of scalars (`L.0`) — the
+tree at the pinned commit lost the update, the tree as it is stores it. -/
+theorem repo_not_correct_scalar_elem_lost :
+    setAccepts exNode exVal [seg "L", seg "0" (some 0)] five
+      (setM GenCfg.original exNode .ptr exVal [seg "L", seg "0" (some 0)] five true) = false ∧
+    setAccepts exNode exVal [seg "L", seg "0" (some 0)] five
+      (setM GenCfg.repo exNode .ptr exVal [seg "L", seg "0" (some 0)] five true) = true := by
   decide
 
 /-- Known finding `set-nil-map-store`: a nil root map is stored into (`assignment to entry in nil map`). -/
 theorem repo_not_correct_nil_map_store :
-    setAccepts exMapNode exMapVal [seg "a"] five (setM GenCfg.repo exMapNode .ptr exMapVal [seg "a"] five true) = false := by
+    setAccepts exMapNode exMapVal [seg "a"] five (setM GenCfg.original exMapNode .ptr exMapVal [seg "a"] five true) = false := by
   decide
 
 /-- Known finding `set-nil-leaf-ptr`: a nil `*int` field is handed to AssignBuf, which writes through it. -/
 theorem repo_not_correct_nil_leaf_ptr :
-    setAccepts exNode exVal [seg "P"] five (setM GenCfg.repo exNode .ptr exVal [seg "P"] five true) = false := by
+    setAccepts exNode exVal [seg "P"] five (setM GenCfg.original exNode .ptr exVal [seg "P"] five true) = false := by
   decide
 
 /-- Known finding `negative-index`: `L.-1` reaches `s[-1]`. -/
@@ -272,5 +281,26 @@ theorem DepthOK_needed :
       (setM GenCfg.fixed (rootN 31) .ptr (rootV 31) (deepPath 32) five true) = false := by
   decide
 end Necessity
+
+/-! ### The tree as it is
+
+Since `fix: Set below a struct or map held by value in a map was lost` no defect switch of the emitter model is on:
+the configuration that mirrors the tree *is* the repaired one. -/
+section CurrentTree
+theorem repo_is_fixed : GenCfg.repo = GenCfg.fixed := rfl
+
+/-- C03 for the emitter as it stands. -/
+theorem set_current (n : Node) (v : Val) (p : List Seg) (src : Src) (f : Form) (nb : Bool)
+    (hf : rootOf f = .ok) (hroot : RootOK n = true) (hwf : NodeWF n = true) (hem : EmitOK n = true)
+    (hwt : WT n v = true) (hok : ValOK v = true) (hd : DepthOK n = true) (hsrc : SrcWT src = true) :
+    setAccepts n v p src (setM GenCfg.repo n f v p src nb) = true := by
+  rw [repo_is_fixed]; exact set_correct n v p src f nb hf hroot hwf hem hwt hok hd hsrc
+
+theorem set_current_dropCaps (n : Node) (v : Val) (p : List Seg) (src : Src) (f : Form) (nb : Bool)
+    (hf : rootOf f = .ok) (hroot : RootOK n = true) (hwf : NodeWF n = true) (hem : EmitOK n = true)
+    (hwt : WT n v = true) (hok : ValOK v = true) (hd : DepthOK n = true) (hsrc : SrcWT src = true) :
+    setAccepts n v p src (dropOut (setM GenCfg.repo n f v p src nb)) = true := by
+  rw [repo_is_fixed]; exact set_correct_dropCaps n v p src f nb hf hroot hwf hem hwt hok hd hsrc
+end CurrentTree
 
 end Inspector.C03
